@@ -90,6 +90,9 @@ FloorAfterClean(accS, t) ==
     LET side == {d \in accS \ {0} : d \notin Anc(t)} \ unsure
         cands == {Height(t) - P} \cup {Height(Fork(t, c)) : c \in side}
     IN Max2(floorB, MinSet(cands))
+\* Clean, the automatic clean and the invalid marks write to the store as well: what is stored is then no
+\* longer the image of one Save, and a Load of it is only promised the crash relation (C12)
+Stale(d) == IF d.has THEN [d EXCEPT !.fresh = FALSE] ELSE d
 \* the automatic maintenance inside ProcessHeader
 AutoCleans(b, t) == AutoEvery > 0 /\ t = b /\ Height(b) % AutoEvery = 0
 
@@ -107,7 +110,8 @@ Submit(b) ==
              /\ subs' = Announce(subs, Delta(tip, t))
              /\ last' = [op |-> "submit", b |-> b, verdict |-> "ok", delta |-> Delta(tip, t)]
              /\ floorB' = IF AutoCleans(b, t) THEN FloorAfterClean(acc', t) ELSE floorB
-       /\ UNCHANGED <<parent, work, invalid, unsure, disk>>
+             /\ disk' = IF AutoCleans(b, t) THEN Stale(disk) ELSE disk
+       /\ UNCHANGED <<parent, work, invalid, unsure>>
 
 \* Variant used for code->spec validation: on a tie the repository may report either tip (C01 only
 \* asks for *a* tip of maximal work); which one is read from the trace.
@@ -120,7 +124,8 @@ SubmitAnyTie(b, t) ==
   /\ subs' = Announce(subs, Delta(tip, t))
   /\ last' = [op |-> "submit", b |-> b, verdict |-> "ok", delta |-> Delta(tip, t)]
   /\ floorB' = IF AutoCleans(b, t) THEN FloorAfterClean(acc', t) ELSE floorB
-  /\ UNCHANGED <<parent, work, invalid, unsure, disk>>
+  /\ disk' = IF AutoCleans(b, t) THEN Stale(disk) ELSE disk
+  /\ UNCHANGED <<parent, work, invalid, unsure>>
 
 \* generation-side guard: only submissions whose outcome the properties dictate
 Dictated(b) == \/ parent[b] \notin ever                       \* true orphan
@@ -132,17 +137,19 @@ NewFloor == FloorAfterClean(acc, tip)
 
 Clean == /\ floorB' = NewFloor
          /\ last' = [op |-> "clean", b |-> 0, verdict |-> "ok", delta |-> <<>>]
-         /\ UNCHANGED <<parent, work, acc, ever, tip, invalid, subs, unsure, disk>>
+         /\ disk' = Stale(disk)
+         /\ UNCHANGED <<parent, work, acc, ever, tip, invalid, subs, unsure>>
 
 Save == /\ disk' = [has |-> TRUE, acc |-> acc, tip |-> tip, invalid |-> invalid,
-                    unsure |-> unsure, floorB |-> floorB]
+                    unsure |-> unsure, floorB |-> floorB, fresh |-> TRUE]
         /\ last' = [op |-> "save", b |-> 0, verdict |-> "ok", delta |-> <<>>]
         /\ UNCHANGED <<parent, work, acc, ever, tip, invalid, subs, floorB, unsure>>
 
-\* Load a fresh repository from the last Save and continue on it.  "Same repository" is only
-\* promised directly after a Save; a Load at any other time is the crash relation (C12, Reload in
-\* the Gen module).
-Load == /\ disk.has /\ last.op = "save"
+\* Load from the last Save and continue (on a fresh repository as after a restart, or on the object in
+\* use): whatever was accepted since the Save is gone and can be submitted again.  "Same repository" is
+\* promised while the store is the image of that Save; after a Clean or a mark it is the crash relation
+\* (C12, Reload in the Gen module).
+Load == /\ disk.has /\ disk.fresh
         /\ acc' = disk.acc /\ tip' = disk.tip /\ invalid' = disk.invalid
         /\ LET t == disk.tip
            IN /\ floorB' = Max2(disk.floorB, Height(t) - P)
@@ -178,12 +185,14 @@ Mark(b) == /\ b \notin invalid
            /\ subs' = <<>>
            /\ unsure' = unsure \ Desc(b)
            /\ last' = [op |-> "mark", b |-> b, verdict |-> "ok", delta |-> <<>>]
-           /\ UNCHANGED <<parent, work, ever, floorB, disk>>
+           /\ disk' = Stale(disk)
+           /\ UNCHANGED <<parent, work, ever, floorB>>
 
 Unmark(b) == /\ b \in invalid
              /\ invalid' = invalid \ {b}
              /\ last' = [op |-> "unmark", b |-> b, verdict |-> "ok", delta |-> <<>>]
-             /\ UNCHANGED <<parent, work, acc, ever, tip, subs, floorB, unsure, disk>>
+             /\ disk' = Stale(disk)
+             /\ UNCHANGED <<parent, work, acc, ever, tip, subs, floorB, unsure>>
 
 Next == \/ \E b \in Blocks : Submit(b)
         \/ Clean \/ Save \/ Load \/ Subscribe \/ (\E b \in AllB : LoadLegacy(b))
